@@ -52,4 +52,9 @@ CANARIES = [
                 .layer(timeout::inbound::TimeoutLayer::new(
                     config.inbound_request_timeout(),
                 ))""")]),
+    dict(id='t-set-timeout-other-header', unit='timeout', what='the caller-side setter writes the deadline under another header name', expect=['Request::set_timeout::header_means_that_duration', 'Request::set_timeout::nothing_else_changes'],
+         edits=[('crates/anemo/src/types/request.rs', """            .insert(super::header::TIMEOUT.into(), timeout);""", """            .insert(super::header::CONTENT_TYPE.into(), timeout);""")]),
+    dict(id='t-timeout-getter-unparsable-is-zero', unit='timeout', what='an unparsable timeout header reads back as a zero deadline', expect=['Request::timeout::reads_the_header'],
+         edits=[('crates/anemo/src/types/request.rs', """            .ok()
+            .flatten()""", """            .unwrap_or(Some(std::time::Duration::from_nanos(0)))""")]),
 ]
